@@ -87,6 +87,8 @@ PROPS["C14"] = {
                        "floors": {"C14.signatures": {"accepted": 0.1, "wide-exponent-accepted": 0.01, "wildcard-accepted": 0.01, "strict-class": 0.1}}},
         "hostile": {"pkg": "./middleware/resolver/dnssec", "run": "^TestVerifC14Hostile$",
                     "tiers": {"quick": T(3000, 2, timeout=400), "thorough": T(60000, 4, timeout=3000)}},
+        "signatures-fuzz": {"pkg": "./middleware/resolver/dnssec", "engine": "fuzz", "fuzz": "FuzzVerifC14Signatures", "run": "^FuzzVerifC14Signatures$",
+                            "tiers": {"thorough": {"fuzztime": 240, "timeout": 600, "minimize": "2s"}}},
     },
 }
 
